@@ -1,20 +1,26 @@
 """C15 — a file writer's output depends only on its own inputs.
-oracle: histories of CommonRoadFileWriter objects (<= 4 writers, <= 6 writes, XML / protobuf, precisions 1..12,
-        3 generated scenarios, files shared between writers, modes ALWAYS / SKIP / ASK): every written file must
-        equal (date aside) what one fresh, identically constructed writer writes once; SKIP leaves every file
-        byte-for-byte untouched; every written file reads back with the ids of its scenario.
+oracle: histories of CommonRoadFileWriter objects (<= 4 writers, <= 14 writes, XML / protobuf, precisions 1..12,
+        3 generated scenarios, files shared between writers, file names with and without the format suffix, modes
+        ALWAYS / SKIP / ASK), each history in a process of its own that has never constructed a writer: every written
+        file must equal (date aside) what one fresh, identically constructed writer writes once IN A PROCESS WITHOUT
+        ANY WRITER HISTORY (reference independent of the process the history runs in); with SKIP no existing file is
+        touched; every written file reads back with the ids of its scenario and its coordinates within 10^-precision.
 corr:   the same histories through Model/Writers.v (symbolic instance, vm_compute): which calls skip, which file
         each call writes and which rendering it holds, and the files at the end (Corr/C15.v)."""
 import builtins
 import contextlib
 import io
+import json
 import logging
 import math
+import multiprocessing
+import multiprocessing.connection
 import os
 import random
 import re
 import shutil
 import tempfile
+import traceback
 
 import numpy as np
 
